@@ -121,6 +121,53 @@ ZeroWeightIgnored(A, b, w, sol) ==
    LET t == WLSw(DropZero(A, w), DropZero(b, w), DropZero(w, w))
    IN t.acoeff = sol.acoeff /\ t.chi2 = sol.chi2 /\ t.covar = sol.covar /\ t.dof = sol.dof
 
+(* ---- homogeneity and model-shift laws ----                                              *)
+(* They are polynomial identities in the entries of A, b, s; TLC checks them with the      *)
+(* factor 2 and a small integer shift on every enumerated system.  The harness relies on   *)
+(* them to replay each system also with b, A, s scaled by powers of two and with a large   *)
+(* multiple of a model vector A.z added to b (a nearly exact fit of a large signal: the    *)
+(* expected values are TLC's, rescaled / shifted as these laws say).                       *)
+ScaleSeq(v, cc) == [i \in 1..Len(v) |-> cc * v[i]]
+ScaleMat(A, cc) == [i \in 1..Len(A) |-> ScaleSeq(A[i], cc)]
+RTimes(q, n, d) == XMul(q, R(n, d))
+HomogeneousInB(A, b, s, sol, cc) ==
+   LET t == WLS(A, ScaleSeq(b, cc), s) IN
+   /\ t.chi2 = RTimes(sol.chi2, cc * cc, 1)
+   /\ \A j \in 1..Cols(A) : t.acoeff[j] = RTimes(sol.acoeff[j], cc, 1)
+   /\ \A i \in 1..Rows(A) : t.yfit[i] = RTimes(sol.yfit[i], cc, 1)
+   /\ t.covar = sol.covar /\ t.dof = sol.dof
+HomogeneousInS(A, b, s, sol, cc) ==
+   LET t == WLS(A, b, ScaleSeq(s, cc)) IN
+   /\ t.chi2 = RTimes(sol.chi2, cc * cc, 1)
+   /\ t.acoeff = sol.acoeff /\ t.yfit = sol.yfit /\ t.dof = sol.dof
+   /\ \A j, k \in 1..Cols(A) : t.covar[j][k] = RTimes(sol.covar[j][k], 1, cc * cc)
+HomogeneousInA(A, b, s, sol, cc) ==
+   LET t == WLS(ScaleMat(A, cc), b, s) IN
+   /\ t.chi2 = sol.chi2 /\ t.yfit = sol.yfit /\ t.dof = sol.dof
+   /\ \A j \in 1..Cols(A) : t.acoeff[j] = RTimes(sol.acoeff[j], 1, cc)
+   /\ \A j, k \in 1..Cols(A) : t.covar[j][k] = RTimes(sol.covar[j][k], 1, cc * cc)
+ModelOf(A, z) == [i \in 1..Rows(A) |-> ISum([j \in 1..Cols(A) |-> A[i][j] * z[j]])]
+ModelShift(A, b, s, sol, z) ==
+   LET az == ModelOf(A, z)
+       t == WLS(A, [i \in 1..Rows(A) |-> b[i] + az[i]], s) IN
+   /\ t.chi2 = sol.chi2 /\ t.covar = sol.covar /\ t.dof = sol.dof
+   /\ \A j \in 1..Cols(A) : t.acoeff[j] = XAdd(sol.acoeff[j], OfInt(z[j]))
+   /\ \A i \in 1..Rows(A) : t.yfit[i] = XAdd(sol.yfit[i], OfInt(az[i]))
+ShiftZ == <<1, -1, 2>>
+
+(* A recorded call on a FLOAT system (high signal-to-noise or noise-free data); the harness *)
+(* measures, from the returned attributes only: neg (chi2 < 0), disc = | chi2 - sum(((b -   *)
+(* yfit) sqivar)^2) | in units of the residual-scale tolerance, grad = normalised gradient  *)
+(* A^T W (b - yfit) (unit 1e-9), cinv = | covar . A^T W A - I | (unit 1e-8), dof, npos, m    *)
+WlsFloatVerdict(r) ==
+  IF r.err THEN "exception"
+  ELSE IF r.neg THEN "chi2 negative"
+  ELSE IF r.disc > 1 THEN "chi2 is not the weighted residual of yfit"
+  ELSE IF r.grad > 1 THEN "gradient of chi2 at acoeff"
+  ELSE IF r.cinv > 1 THEN "covar is not the inverse of the normal matrix"
+  ELSE IF r.dof # r.npos - r.m THEN "dof"
+  ELSE ""
+
 (* calling conventions of computechi2: "2d" A is (N, M); "1d" (M = 1 only) A is a vector  *)
 (* of length N; "int" integer arrays.  The answer does not depend on the convention.      *)
 WLSConvs == {"2d", "1d", "int"}
